@@ -93,6 +93,22 @@ def alias_unit(ctx):
                     detail = None if ok else (
                         'alias %r != convention-translated name %r' % (
                             p['alias'], want))
+                if p['key'] not in ('*', '**'):
+                    # the same keyword must survive call(name, args, kwargs)
+                    kept = p.get('call_keeps_keyword') is True
+                    out.append(core.ob(
+                        'call-keyword:%s.%s:%s' % (
+                            fd['module'].split('.')[-1], fd['qualname'],
+                            p['name']), 'proved' if kept else 'failed',
+                        'signature', 'sigflow',
+                        0.0, function='%s.%s' % (fd['module'],
+                                                 fd['qualname']),
+                        text='call(name, args, kwargs) passes the keyword '
+                             'spelling of %s on' % p['name'],
+                        detail=None if kept else
+                        'utils.filter_parameters_dict drops (or fails on) '
+                        'the keyword %r: %r' % (
+                            p['alias'], p.get('call_keeps_keyword'))))
                 out.append(core.ob(
                     name, 'proved' if ok else 'failed', 'signature',
                     'sigflow', 0.0, function='%s.%s' % (fd['module'],
@@ -129,7 +145,9 @@ def units(ctx):
            for c in specs.delegate_contracts(ctx.tier)]
     us += [contract_unit(c, world_setup=specs.setup)
            for c in specs.clone_contracts()]
-    us += [contract_unit(c, world_setup=specs.setup_definition)
+    us += [contract_unit(c, world_setup=(
+        specs.setup_definition_named if c.short.endswith('name=payload')
+        else specs.setup_definition))
            for c in specs.definition_contracts()]
     us += [contract_unit(c, world_setup=specs.setup)
            for c in specs.strip_contracts()]
